@@ -1,5 +1,6 @@
 import Driver.Util
 import Helm.Model.Cluster
+import Helm.Model.DryRun
 open Lean Helm.Cluster
 namespace Driver.Cluster
 
@@ -41,6 +42,14 @@ def run (op : String) (j : Json) : Option Json :=
       if boolv j "dryRun" then some <| Json.mkObj [("store", jlist ofObj s), ("log", Json.arr #[]), ("ok", Json.bool true)] else
       let r := uninstallCluster tgt s
       some <| Json.mkObj [("store", jlist ofObj r.store), ("log", jlist ofEv r.log), ("ok", Json.bool true), ("kept", jlist jstr r.kept)]
+  | "dryRunOp" =>
+    let s := (arr j "store").map toObj
+    let mj := obj j "mode"
+    let m : Helm.DryRun.Mode := { dryRun := boolv mj "dryRun", option := str mj "option", clientOnly := boolv mj "clientOnly", skipCRDs := boolv mj "skipCRDs" }
+    let r := match str j "kind" with
+      | "install" => Helm.DryRun.installOp (str j "rel") (str j "ns") m (boolv j "takeOwnership") (boolv j "force") ((arr j "crds").map toObj) ((arr j "target").map toObj) s
+      | _ => Helm.DryRun.upgradeOp (str j "rel") (str j "ns") m (boolv j "takeOwnership") (boolv j "force") ((arr j "current").map toObj) ((arr j "target").map toObj) s
+    some <| Json.mkObj [("store", jlist ofObj r.store), ("log", jlist ofEv r.log), ("ok", Json.bool r.ok), ("isDryRun", Json.bool (Helm.DryRun.isDryRun m))]
   | _ => none
 
 end Driver.Cluster
